@@ -847,7 +847,15 @@ class FlatSamplerCache:
     def get_flat_sampler(self, *args, **kwargs):
         """Get or create the flattened sampler for these arguments."""
         # Simple caching based on argument signature
-        args_sig = (len(args), tuple(kwargs.keys()))
+        args_sig = (
+            len(args),
+            tuple(kwargs.keys()),
+            # the staged sampler is specialised to the parameters' shapes and dtypes
+            tuple(
+                (jnp.shape(leaf), jnp.result_type(leaf))
+                for leaf in jtu.tree_leaves((args, kwargs))
+            ),
+        )
         if self._cached_args_signature != args_sig:
             keyful_with_shape = self.config.get_keyful_sampler_with_shape()
             flat_sampler, _ = self._make_flat(keyful_with_shape)(
